@@ -55,6 +55,7 @@ var chanCfg = []int{2, 3, 0, 1}
 var urls = map[string]string{
 	"plain": "rtsp://cam.example/live/a",
 	"v6":    "rtsp://[2001:db8::1]:8554/live/a",
+	"v6np":  "rtsp://[fe80::1%25eth0]/live/a",
 	"port":  "rtsp://10.0.0.7:554/live/a/track1",
 	"query": "rtsp://h/live/a?token=abc&x=1",
 	"star":  "*",
